@@ -120,9 +120,15 @@ func (interp *Interpreter) CompileAST(n ast.Node) (*Program, error) {
 	}
 	interp.mutex.Unlock()
 
-	// Add main to list of functions to run, after all inits.
+	// Add main to list of functions to run, after all inits, if it is declared
+	// by this program: a main function declared by a previous one has already run.
 	if m := gs.sym[mainID]; pkgName == mainID && m != nil {
-		initNodes = append(initNodes, m.node)
+		for a := m.node; a != nil; a = a.anc {
+			if a == root {
+				initNodes = append(initNodes, m.node)
+				break
+			}
+		}
 	}
 
 	if interp.cfgDot {
